@@ -707,9 +707,14 @@ Qed.
 
 Ltac m_is_1 :=
   match goal with
-  | H : neq1 ?m = false |- _ => apply neq1_false in H; rewrite ?H
+  | H : neq1 ?m = false |- _ => apply neq1_false in H
   | _ => idtac
   end.
+(* coordinate-wise ring goal, using m == 1 when that is known *)
+Ltac fin :=
+  split; cbn [fst snd];
+  try (match goal with H : ?m == 1 |- _ => rewrite H end);
+  ring.
 
 Lemma linear_vzero m xr rt : veq vzero (linear m xr rt vzero).
 Proof.
@@ -728,65 +733,70 @@ Proof.
     + destruct (rot_cs rt) as [ca sa] eqn:Ers.
       rewrite !offsets_spec_lemma. cbn [offsets_spec]. rewrite map_lattice.
       apply Forall2_lattice. intros i j. unfold reg_at, rect_at, linear. rewrite Ers.
-      destruct (neq1 m) eqn:Em; destruct xr; m_is_1; split; cbn [fst snd]; ring.
+      generalize (qnat i) (qnat j). intros qi qj.
+      destruct (neq1 m) eqn:Em; destruct xr; m_is_1; fin.
     + apply orb_false_iff in Eb. destruct Eb as [-> Ert]. destruct rt; [discriminate|].
       rewrite !offsets_spec_lemma. cbn [offsets_spec]. rewrite map_lattice.
       apply Forall2_lattice. intros i j. unfold rect_at, linear. cbn [rot_cs].
-      destruct (neq1 m) eqn:Em; m_is_1; split; cbn [fst snd]; ring.
+      generalize (qnat i) (qnat j). intros qi qj.
+      destruct (neq1 m) eqn:Em; m_is_1; fin.
   - (* Regular *)
     cbn [transform]. rewrite !offsets_spec_lemma. cbn [offsets_spec]. rewrite map_lattice.
     apply Forall2_lattice. intros i j. unfold reg_at, linear, cplx_mul.
+    generalize (qnat i) (qnat j). intros qi qj.
     destruct v1 as [a b], v2 as [a' b'].
     destruct rt as [[cs sn]|]; cbn [rot_cs];
-      destruct (neq1 m) eqn:Em; destruct xr; m_is_1; split; cbn [fst snd]; ring.
+      destruct (neq1 m) eqn:Em; destruct xr; m_is_1; fin.
   - (* Explicit *)
     cbn [transform].
     destruct rt as [[cs sn]|].
     + destruct xr; cbn [offsets map]; (constructor; [apply linear_vzero|]);
         apply Forall2_map_pointwise; intros [x y];
-        unfold linear, cplx_mul, cplx_conj; cbn [rot_cs fst snd]; split; cbn [fst snd]; ring.
+        unfold linear, cplx_mul, cplx_conj; cbn [rot_cs fst snd]; fin.
     + destruct xr; destruct (neq1 m) eqn:Em; cbn [andb offsets map];
         (constructor; [apply linear_vzero|]).
       * apply Forall2_map_pointwise; intros [x y]; unfold linear; cbn [rot_cs fst snd];
-          split; cbn [fst snd]; ring.
+          fin.
       * apply Forall2_map_pointwise; intros [x y]; unfold linear; cbn [rot_cs fst snd]; m_is_1;
-          split; cbn [fst snd]; ring.
+          fin.
       * apply Forall2_map_pointwise; intros [x y]; unfold linear; cbn [rot_cs fst snd];
-          split; cbn [fst snd]; ring.
+          fin.
       * rewrite <- (map_id l) at 1.
         apply Forall2_map_pointwise; intros [x y]; unfold linear; cbn [rot_cs fst snd]; m_is_1;
-          split; cbn [fst snd]; ring.
+          fin.
   - (* ExplicitX *)
     cbn [transform].
     destruct rt as [[cs sn]|].
     + cbn [offsets map]. (constructor; [apply linear_vzero|]). rewrite !map_map.
       apply Forall2_map_pointwise; intros x; unfold linear; cbn [rot_cs fst snd].
-      destruct xr; split; cbn [fst snd]; ring.
+      destruct xr; fin.
     + destruct (neq1 m) eqn:Em; cbn [offsets map]; (constructor; [apply linear_vzero|]);
         rewrite !map_map; apply Forall2_map_pointwise; intros x; unfold linear; cbn [rot_cs fst snd];
-        m_is_1; destruct xr; split; cbn [fst snd]; ring.
+        m_is_1; destruct xr; fin.
   - (* ExplicitY *)
     cbn [transform].
     destruct rt as [[cs sn]|].
     + cbn [offsets map]. (constructor; [apply linear_vzero|]). rewrite !map_map.
       apply Forall2_map_pointwise; intros y; unfold linear; cbn [rot_cs fst snd].
-      destruct xr; split; cbn [fst snd]; ring.
+      destruct xr; fin.
     + destruct (xr || neq1 m) eqn:Eb.
       * cbn [offsets map]. (constructor; [apply linear_vzero|]). rewrite !map_map.
         apply Forall2_map_pointwise; intros y; unfold linear; cbn [rot_cs fst snd].
-        destruct xr; split; cbn [fst snd]; ring.
+        destruct xr; fin.
       * apply orb_false_iff in Eb. destruct Eb as [-> Em].
         cbn [offsets map]. (constructor; [apply linear_vzero|]). rewrite !map_map.
         apply Forall2_map_pointwise; intros y; unfold linear; cbn [rot_cs fst snd]. m_is_1.
-        split; cbn [fst snd]; ring.
+        fin.
 Qed.
 
 (* the transform keeps the count *)
 Corollary transform_count_lemma r m xr rt :
   length (offsets (transform r m xr rt)) = length (offsets r).
 Proof.
-  pose proof (transform_linear_lemma r m xr rt) as H. apply Forall2_length in H.
-  now rewrite map_length in H.
+  pose proof (transform_linear_lemma r m xr rt) as H.
+  assert (L : forall (a b : list vec), Forall2 veq a b -> length a = length b).
+  { induction 1; cbn; congruence. }
+  apply L in H. now rewrite map_length in H.
 Qed.
 
 (* [linear] with a genuine rotation is a similarity of ratio |m| *)
@@ -800,3 +810,102 @@ Proof.
     + transitivity (m * m * (x * x + y * y) * (c * c + s * s)); [ring | rewrite H; ring].
   - destruct xr; cbn [fst snd]; ring.
 Qed.
+
+(* ================================================================== apply_repetition *)
+Section ApplyProofs.
+  Context {E : Type} (translate : vec -> E -> E).
+
+  Lemma apply_none e : apply_repetition translate e RNone = Ok ([], RNone).
+  Proof. reflexivity. Qed.
+
+  Lemma wrapZ_pred_small n : (N.of_nat (S n) < two64N)%N -> wrapZ (Z.of_nat (S n) - 1) = N.of_nat n.
+  Proof.
+    unfold wrapZ, two64N. intro H. rewrite Z.mod_small by lia. lia.
+  Qed.
+
+  (* One copy per offset other than the first (which is the zero vector, see
+     offsets_head_zero_lemma), in the enumeration order, duplicates kept; each copy is the
+     element translated by that offset; copies and the original are left without repetition. *)
+  Theorem apply_repetition_spec_lemma e r :
+    rep_ok r -> (0 < count r)%N ->
+    apply_repetition translate e r = Ok (map (fun v => translate v e) (tl (offsets r)), RNone) /\
+    N.of_nat (length (map (fun v => translate v e) (tl (offsets r)))) = (count r - 1)%N.
+  Proof.
+    intros Hok Hpos.
+    pose proof (count_offsets_lemma r Hok) as Hc.
+    destruct (offsets_head_zero_lemma r Hpos) as (z & t & Ho & _).
+    assert (Hlt : (N.of_nat (length (offsets r)) < two64N)%N).
+    { rewrite Hc. destruct r; cbn [count] in *; unfold wrapN;
+        try (apply N.mod_lt; discriminate). lia. }
+    split.
+    - destruct r; [cbn in Hpos; lia| | | | |];
+        unfold apply_repetition; rewrite Ho in *; cbn [length skipn tl];
+        rewrite (wrapZ_pred_small _ Hlt), N.ltb_irrefl, Nat2N.id, firstn_all; reflexivity.
+    - rewrite map_length, <- Hc, Ho. cbn [tl length]. lia.
+  Qed.
+
+  (* F18: a Rectangular / Regular repetition with columns = 0 or rows = 0 *)
+  Lemma apply_zero_count_crash e r : r <> RNone -> offsets r = [] -> apply_repetition translate e r = Crash.
+  Proof.
+    intros Hn Ho. destruct r; [congruence| | | | |]; unfold apply_repetition; rewrite Ho; reflexivity.
+  Qed.
+End ApplyProofs.
+
+(* "always includes the zero vector" fails for columns = 0 (or rows = 0): the count is 0, the
+   set of offsets is empty, and apply_repetition on any element reads outside the offsets array *)
+Theorem zero_count_refuted :
+  exists r, rep_ok r /\ r <> RNone /\ count r = 0%N /\ offsets r = [] /\ ~ InV vzero (offsets r) /\
+            extrema r = [] /\
+            forall (E : Type) (translate : vec -> E -> E) (e : E),
+              apply_repetition translate e r = Crash.
+Proof.
+  exists (RRect 0 1 1 1). split; [reflexivity|]. split; [discriminate|].
+  split; [reflexivity|]. split; [reflexivity|]. split; [intro H; inversion H|].
+  split; [reflexivity|]. intros. reflexivity.
+Qed.
+
+(* both degenerate directions, every lattice kind, any spacing *)
+Theorem zero_count_crash_lemma :
+  forall c rw, (c = 0 \/ rw = 0)%N ->
+  forall (E : Type) (translate : vec -> E -> E) (e : E),
+    (forall sx sy, apply_repetition translate e (RRect c rw sx sy) = Crash) /\
+    (forall v1 v2, apply_repetition translate e (RReg c rw v1 v2) = Crash).
+Proof.
+  intros c rw H E translate e.
+  split; intros; apply apply_zero_count_crash; try discriminate;
+    rewrite offsets_spec_lemma; cbn [offsets_spec];
+    destruct H as [-> | ->]; try reflexivity; apply lattice_nil_r.
+Qed.
+
+(* the concrete element used by the extracted driver *)
+Corollary apply_elem_spec_lemma {A} (e : elem A) r :
+  rep_ok r -> (0 < count r)%N ->
+  apply_elem e r = Ok (map (fun v => mkElem (map (fun p => vadd p v) (e_pos e)) (e_rest e))
+                           (tl (offsets r)), RNone).
+Proof. intros H1 H2. apply (apply_repetition_spec_lemma elem_translate e r H1 H2). Qed.
+
+(* ================================================================== hypotheses are satisfiable *)
+Example rep_ok_example :
+  let r := RReg 3 2 (2, 1) (-1, 3) in
+  rep_ok r /\ (0 < count r)%N /\ extrema_defined r /\ count r = 6%N /\
+  offsets r = offsets_spec r /\ length (extrema r) = 4%nat.
+Proof. cbn. repeat split; reflexivity. Qed.
+
+Example rot_ok_example : rot_ok (Some (3 # 5, 4 # 5)) /\ rot_ok (Some (0, -1 # 1)) /\ rot_ok None.
+Proof. cbn. repeat split; reflexivity. Qed.
+
+Example extrema_defined_example : extrema_defined (RExplX [3; -2; 3]) /\ rep_ok (RExplX [3; -2; 3]).
+Proof. cbn. split; [exact I | reflexivity]. Qed.
+
+Print Assumptions offsets_spec_lemma.
+Print Assumptions offsets_nth_lemma.
+Print Assumptions count_offsets_lemma.
+Print Assumptions zero_in_offsets_lemma.
+Print Assumptions extrema_subset_lemma.
+Print Assumptions extrema_bbox_lemma.
+Print Assumptions extrema_empty_explicit_refuted.
+Print Assumptions transform_linear_lemma.
+Print Assumptions apply_repetition_spec_lemma.
+Print Assumptions zero_count_refuted.
+Print Assumptions zero_count_crash_lemma.
+Print Assumptions count_wrap_refuted.
